@@ -44,11 +44,15 @@ invert = _make_boolean_func(docstrings.invert_docstring, pd.Series.eq, operator.
 
 
 def _make_logical_func(docstring, array_op, float_op):
+    def _constant_where_defined(self, value):
+        # equal to value wherever self is defined, undefined elsewhere
+        return self.make_boolean() * 0 + value
+
     def _op_with_scalar_and(self, other):
         if np.isnan(other):
             return sc.Stairs._new(np.nan, None, closed=self.closed)
         elif other == 0:
-            return sc.Stairs._new(0, None, closed=self.closed)
+            return _constant_where_defined(self, 0)
         else:
             return self.make_boolean()
 
@@ -58,7 +62,7 @@ def _make_logical_func(docstring, array_op, float_op):
         elif other == 0:
             return self.make_boolean()
         else:
-            return sc.Stairs._new(1, None, closed=self.closed)
+            return _constant_where_defined(self, 1)
 
     def _op_with_scalar_xor(self, other):
         if np.isnan(other):
